@@ -86,9 +86,13 @@ def cases(seed, tier):
                 out.append({'t': 'fwd', 'module': f['module'], 'owner': f['owner'], 'name': f['name'], 'kw': old_kw, 'recv': f['owner'],
                             'via_module': f['via_module'], 'via_owner': f['via_owner'], 'via_name': f['via_name'], 'seed': seed, 'rep': rep,
                             'tier': tier})
+        # hand-written old attributes (properties)
+        for a in ob.old_attributes():
+            out.append({'t': 'attr', 'module': a['module'], 'owner': a['owner'], 'name': a['name'], 'recv': a['owner'], 'seed': seed, 'rep': rep,
+                        'tier': tier})
     # heavy cases (estimation) first so that the shards finish together
     heavy = ('BIOGEME', 'bioResults', 'results', 'multiobjectives')
-    out.sort(key=lambda c: 0 if (_short(c['owner'], c['module']) in heavy or c['t'] == 'fwd') else 1)
+    out.sort(key=lambda c: 0 if (_short(c['owner'], c['module']) in heavy or c['t'] in ('fwd', 'attr')) else 1)
     return out
 
 
@@ -101,6 +105,7 @@ def warmup():
 
         ob.discover()
         ob.forwarders()
+        ob.old_attributes()
         import biogeme.biogeme  # noqa
         import biogeme.results  # noqa
         import biogeme.models  # noqa
@@ -290,6 +295,8 @@ def run_case(case):
     with ob.scratch():
         if case['t'] == 'alias':
             return _run_alias(case)
+        if case['t'] == 'attr':
+            return _run_attr(case)
         return _run_param(case)
 
 
@@ -768,6 +775,162 @@ def _both_spellings(rec, base, v, old_kw, new_kw, n_new, code, trip, short, wit)
         rec.c(f'both_spellings_different_values_{tag}_{who}_not_judged')
 
 
+_NOTICE = None
+
+
+def _run_attr(case):
+    """Old attribute (property) vs the attribute it stands for, on one snapshot of the receiver: reading, assigning a value
+    that changes behaviour, and a follow-up history executed after the assignment. The notice of an old attribute is a log
+    record ('Obsolete syntax. Use X instead of Y'), the only extra effect allowed."""
+    import re
+
+    from ..gen import c20_fixtures as fx
+    from ..oracle import c20_compare as cmp
+    from ..oracle import c20_observe as ob
+
+    rec = Rec(case)
+    owner, old = case['owner'], case['name']
+    cls = ob.resolve_class(owner)
+    prop = inspect.getattr_static(cls, old, None)
+    rec_ = [a for a in ob.old_attributes() if a['owner'] == owner and a['name'] == old]
+    tag = f'{owner}.{old}'
+    short = f'{_short(owner, case["module"])}.{old}'
+    if not isinstance(prop, property) or not rec_:
+        rec.inconc(f'old attribute {tag} vanished between discovery and execution')
+        return rec.out()
+    rec.c('old_attributes_scheduled')
+    W = fx.World(_world_seed(case))
+    try:
+        variants = fx.attribute_variants(owner, old, W)
+    except BaseException as e:  # noqa
+        import traceback
+
+        rec.inconc(f'fixture for old attribute {tag} failed: {type(e).__name__}: {e} {traceback.format_exc()[-500:]}')
+        return rec.out()
+    if not variants:
+        rec.inconc(f'no fixture for the old attribute {tag}')
+        return rec.out()
+    notice = re.compile(r'Use\s+(\w+)\s+instead\s+of\s+' + re.escape(old) + r'\b')
+
+    def held(obj):
+        return {k: id(v) for k, v in vars(obj).items() if not isinstance(v, (int, float, str, bool, type(None), tuple))}
+
+    def strip_notice(o):
+        """-> (observation without the notice records, replacement names announced)"""
+        names, keep = [], []
+        for lv, msg in o.get('log', []):
+            m = notice.search(msg)
+            if m and 'bsolete' in msg:
+                names.append(m.group(1))
+            else:
+                keep.append([lv, msg])
+        return dict(o, log=keep), names
+
+    def judge(what, label, o, n, wit, private_ok=True):
+        """old vs new observation; differences confined to private (underscore) attributes are counted, not judged"""
+        o2, names = strip_notice(o)
+        diffs = []
+        for k, d in ob.compare(dict(o2, state=None), dict(n, state=None)):
+            if k == 'exception-message-differs':
+                continue  # the message of an AttributeError spells the attribute name
+            diffs.append((k, d))
+        sd = cmp.diff(o.get('state'), n.get('state'), limit=60)
+        pub = [x for x in sd if not re.search(r'/_\w+', x.split(':')[0])]
+        if pub:
+            diffs.append(('state-after-call-differs', '; '.join(pub[:4])))
+        elif sd:
+            rec.c('old_attribute_state_differs_only_in_private_attributes_not_judged')
+        if len(names) == 1:
+            rec.c('old_attribute_exactly_one_obsolete_syntax_notice')
+        elif not names:
+            rec.c('old_attribute_without_notice_not_judged')
+        else:
+            diffs.append(('notice-repeated', f'{len(names)} notices'))
+        extra, missing = ob.extra_warnings(o, n)
+        if missing or [w for w in extra if w[0] not in ('DeprecationWarning',)]:
+            diffs.append(('warnings-differ', f'extra {[w[:2] for w in extra][:2]} missing {missing[:2]}'))
+        for k, d in diffs:
+            rec.violation(f'C20/old-attribute-{what}-{k}/{short}', f'{tag} [{label}] {what}: {k}: {d}', wit)
+        if not diffs:
+            rec.c(f'old_attribute_{what}_identical')
+        return names
+
+    compared = 0
+    for i, v in enumerate(variants):
+        recv = v['recv']
+        new = rec_[0]['declared']
+        if new is None or not hasattr(recv, new):
+            tw = [a for a in dir(recv) if a != old and cmp.norm_name(a) == cmp.norm_name(old)]
+            new = tw[0] if len(tw) == 1 else new
+        if new is None or not hasattr(recv, new):
+            rec.violation(f'C20/old-attribute-replacement-does-not-exist/{short}', f'{tag}: replacement {new!r} is not an attribute of the receiver', None)
+            continue
+        # -- reading
+        o = _obs(rec, dict(fn=lambda: getattr(recv, old), state=[recv]), f't{i}_get_old', [])
+        n = _obs(rec, dict(fn=lambda: getattr(recv, new), state=[recv]), f't{i}_get_new', [])
+        if 'returned' not in o or 'returned' not in n:
+            rec.inconc(f'{tag}/{v["label"]}: observation of the read access failed')
+            continue
+        rec.ev()
+        compared += 1
+        rec.key([tag, 'get', v['label'], _fixture_id(dict(v, args=[], kwargs={}))])
+        wit = {'attribute': tag, 'replacement': new, 'variant': v['label'], 'old': _trim(o), 'new': _trim(n)}
+        names = judge('read', v['label'], o, n, wit)
+        if names and names[0] != new:
+            rec.violation(f'C20/old-attribute-notice-names-other-replacement/{short}', f'{tag}: notice says use {names[0]}, the twin attribute is {new}', wit)
+        if i == 0:
+            rec.sample({'old_attribute': tag, 'replacement': new, 'read_old': o.get('result'), 'read_new': n.get('result'), 'notice': names})
+        # -- assigning
+        val = v['value']
+        if val is None:
+            val = 1  # read-only pair: both must refuse the assignment alike
+
+        def setter(name):
+            def f():
+                before = held(recv)
+                setattr(recv, name, val)
+                after = held(recv)
+                return {'held_objects_replaced': sorted(k for k in after if k in before and before[k] != after[k]),
+                        'held_objects_added': sorted(k for k in after if k not in before and not k.startswith('_'))}
+
+            return f
+
+        hist = v.get('history')
+        call = dict(state=[recv], post=(lambda _r: hist(recv)) if hist else None)
+        o = _obs(rec, dict(call, fn=setter(old)), f't{i}_set_old', [])
+        n = _obs(rec, dict(call, fn=setter(new)), f't{i}_set_new', [])
+        n2 = _obs(rec, dict(call, fn=setter(new)), f't{i}_set_new_again', [])
+        if 'returned' not in o or 'returned' not in n or 'returned' not in n2:
+            rec.inconc(f'{tag}/{v["label"]}: observation of the assignment failed: {str(o)[:100]} {str(n)[:100]}')
+            continue
+        rec.ev()
+        rec.key([tag, 'set', v['label'], repr(val), _fixture_id(dict(v, args=[], kwargs={}))])
+        rec.c('old_attribute_assignment_accepted_by_new_name' if n['returned'] else 'old_attribute_assignment_refused_by_new_name')
+        if ob.compare(n, n2):
+            # assigning through the NEW name is itself not reproducible on this state (e.g. an engine resized upwards):
+            # nothing to hold the old name to
+            rec.c('old_attribute_new_name_history_not_deterministic_not_judged')
+            rec.c('not_deterministic/' + short + '/' + v['label'])
+            continue
+        wit = {'attribute': tag, 'replacement': new, 'variant': v['label'], 'value': repr(val), 'old': _trim(o), 'new': _trim(n)}
+        if prop.fset is None:
+            # No hand-written setter is kept under the old name (a read-only view); whether assigning through it should
+            # work is outside the statement (no notice names a replacement for assignment): classified, not judged.
+            rec.c('old_attribute_read_only_and_replacement_read_only_too' if not n['returned'] else
+                  'old_attribute_read_only_but_replacement_assignable_not_judged')
+            if n['returned']:
+                rec.c('read_only_old_attribute_with_assignable_replacement/' + short)
+            continue
+        judge('assignment', v['label'], o, n, wit)
+        if n['returned'] and n.get('result', {}).get('~dict') and any(k == 'held_objects_replaced' and x for k, x in n['result']['~dict']):
+            rec.c('old_attribute_replacement_replaces_held_objects')
+        if hist and n['returned']:
+            rec.c('old_attribute_history_compared')
+    if compared:
+        rec.c('attr_compared::' + tag)
+    return rec.out()
+
+
 # ---------------------------------------------------------------------------
 # aggregated coverage requirements
 # ---------------------------------------------------------------------------
@@ -818,6 +981,13 @@ def finalize(cov, tier):
     cov['renamed_keywords_whose_value_never_showed_an_effect'] = len(noeff)
     if noeff:
         out.append(f'renamed keywords driven only with values that changed nothing relative to the default: {noeff}')
+    # old attributes
+    attrs = {f'{a["owner"]}.{a["name"]}' for a in ob.old_attributes()}
+    adone = {k.split('::', 1)[1] for k in cov if k.startswith('attr_compared::')}
+    if attrs - adone:
+        out.append(f'old attributes never compared: {sorted(attrs - adone)}')
+    cov['old_attributes_found_in_sources'] = len(attrs)
+    cov['old_attributes_compared'] = len(attrs & adone)
     # forwarding callers
     fw = ob.forwarders()
     ftr = {f'{f["owner"] or f["module"]}.{f["name"]}:{k}@via:{f["via_owner"] or f["via_module"]}.{f["via_name"]}' for f in fw for k in f['mapping']}
